@@ -1,7 +1,7 @@
-\* all strings of length <= MaxLen over AlphabetNum
+\* all strings of length <= MaxLen over AlphabetStruct
 CONSTANTS
-    Alphabet <- AlphabetNum
-    MaxLen = 5
+    Alphabet <- AlphabetStruct
+    MaxLen = 4
     TagHexFloats = TRUE
 INIT Init
 NEXT Next
